@@ -1,8 +1,9 @@
-SPECIFICATION MCSpec
+SPECIFICATION GenSpec
+VIEW GenView
 CONSTANTS
   WaitC = {"c1", "c2"}
   CachedC = {}
-  HandleC = {}
+  HandleC = {"c3"}
   Key2C = {}
   Callers <- MCCallers
   Kind <- MCKind
@@ -10,14 +11,14 @@ CONSTANTS
   NW = 2
   Keys = {1}
   MaxFetch = 1
-  CanCancel = {}
+  CanCancel = {"c2"}
   ATOMIC = TRUE
   ENSURE_ATOMIC = TRUE
   EXIT_NOTIFY = TRUE
-  COOP = FALSE
+  COOP = TRUE
   LINGER = FALSE
-  RECLAIM = TRUE
+  RECLAIM = FALSE
   USED = FALSE
-INVARIANTS TypeOK SingleWorker DeadIsError HandleAfterDropIsError
-PROPERTIES NoLostWakeup CallersFinish DropStopsAll DeadStaysDead
+  MaxEv = 6
+INVARIANTS TypeOK SingleWorker DeadIsError HandleAfterDropIsError Emit
 CHECK_DEADLOCK FALSE
